@@ -5,6 +5,16 @@ V = os.path.dirname(os.path.dirname(os.path.abspath(__file__)))
 
 # id -> dict(level, engine, technique, text, note, design)
 CLAIMED = {
+ "C02": dict(level="exploration", engine="vsh-virtual",
+   technique="reference-interpreter monitor: generated programs (every leaf a probe) run by the complete shell; probe order, $? at every probe and final exit status compared with the model",
+   text="Systematic: every construct nested in every construct to depth 2 (quick) / 3 around each of 12 leaves. Random: 1.5*10^5 (quick) / 3*10^6 programs of up to 40 nodes with varied surface syntax (newline vs ;, line continuation after && || |, optional parentheses in case), iteration-dependent conditions, functions, multi-command pipelines (per-stage lanes), each under FIFO and one random preempting schedule.",
+   note="Trusted: models/ctl.rs (validated on 10^4 pipeline-free programs against dash and bash at development time: zero disagreements after excluding break/continue/return/exit under `!`, break n beyond the loops of the current subshell/function, `((`). Probes in different pipeline stages are ordered only within their stage.",
+   design="5/C02"),
+ "C10": dict(level="exploration", engine="vsh-virtual",
+   technique="reference-interpreter monitor extended with errexit contexts, the shell-error table and the EXIT trap; plus an abort-vs-signal-trap template table",
+   text="The C02 generator with failing commands of every category planted at every position, set -e/+e switched anywhere, a syntax error planted after a random line, and an EXIT trap probe: the trace after each failure, the $? the EXIT trap sees, exactly-once EXIT trap and the exit status are compared with the model (1.5*10^5 quick / 3*10^6 thorough programs + the systematic nesting under set -e). A table of aborts coinciding with a signal trap whose action returns checks that the abort wins.",
+   note="Trusted: models/ctl.rs errexit rules (XCU 2.8.1 set -e items 1-3) and docs/src/termination.md; statuses of shell errors only required non-zero; validated against dash (0 disagreements on 1500 programs; bash deviates on special-built-in errors as documented). The real binary's own exit path is exercised by C19.",
+   design="5/C10"),
  "C01": dict(level="exploration", engine="vsh-virtual",
    technique="reference-model monitor: word AST -> expected fields (POSIX 2.6 model) vs the argument vector a probe built-in receives from the complete shell; read built-in vs a read-splitting model",
    text="Words are generated from an AST and rendered to shell text, so the expected field list is known by construction. Exhaustive: all words of up to 2 (quick) / 3 units over a 46-unit alphabet x 96 states; read: all lines to length 5/7 over {a b space : backslash} x 5 IFS x 1-3 variables x -r. Random: 10^6 (quick) / 1.5*10^7 deeper words over 7 values x 6 positional lists x 7 IFS values x nounset. Every word runs in its own subshell so errors and ${x=w} side effects are contained.",
@@ -32,7 +42,7 @@ CLAIMED = {
    design="5/C15, 6"),
  "C16": dict(level="exploration", engine="lib-inproc",
    technique="lock-step reference-model monitor (stack of maps) on the real VariableSet, breadth-first over API histories; language-level script monitor",
-   text="Part A: every API history to depth 5 (quick) / 7 (thorough) over push/pop of regular and volatile contexts, get_or_new/assign/export/read-only in each scope, unset in each scope, positional parameters on two names is executed on the real VariableSet in lock-step with a naive stack-of-maps model; every getter (get, get_scoped, iter, env_c_strings, positional_params) is compared after every operation.",
+   text="Part B: generated scripts (temporary assignments on regular/special built-ins, functions and externals, typeset locals, export, unset, positional parameters; values and export flags read at run time by a probe; environments of executed programs read from the virtual kernel) compared with the reference interpreter; 18 routes x 2 values attempting to change a read-only variable. Part A: every API history to depth 5 (quick) / 7 (thorough) over push/pop of regular and volatile contexts, get_or_new/assign/export/read-only in each scope, unset in each scope, positional parameters on two names is executed on the real VariableSet in lock-step with a naive stack-of-maps model; every getter (get, get_scoped, iter, env_c_strings, positional_params) is compared after every operation.",
    note="Trusted: models/vars.rs as a reading of the doc comments of variable.rs; arrays and quirks are not exercised.",
    design="5/C16"),
 }
